@@ -6,6 +6,12 @@ ALL = ["C%02d" % i for i in range(1, 21)]
 
 WRAP_NOTE = "Shaped runs are synthetic (generator asserts the shaper output contract); break opportunities come from the segmenter (C06). Negative letter spacing is checked for conservation only (measure not monotone)."
 CHECKS = {
+ "C14": dict(
+   level="model_checking",
+   text="Explicit exploration of every operation history up to depth 4 (thorough 5) on a real FontMap, from the empty map (phase A) and from 4 pre-populated databases (phase B): AddFace of 7 synthetic faces, SetQuery (10), SetScript (3), SetRuneCacheSize (4), ResolveFace (7 runes). Every history ending in ResolveFace is compared with a fresh uncached FontMap (cache transparency / history independence) and with a reference model of the four documented steps validated on the unchanged tree.",
+   note="Histories are enumerated without hidden-state merging (no dedup), so every trace runs on the implementation. Faces are synthetic (only a Cmap), all user provided; generic families are judged differentially only. System-font (non user-provided) priority is not covered.",
+   technique="explicit-state exploration of operation histories on the real object with differential and reference-model oracles (E2)",
+   design="1/C14", engine="E2 hist"),
  "C07": dict(
    level="exploration",
    text="Every text up to the tier's length over a 24-rune alphabet (4 scripts, both digit kinds, neutrals, 3 bracket pairs, mark, CJK, ZWJ, LF/PS, RLE/RLI/PDI, emoji) x every sub-range x 6 directions (incl. vertical with/without fixed orientation), languages and 4 Fontmap implementations crossed one at a time, plus a longer bracket-alphabet pass; one long-lived Segmenter per shard and explicit reuse pairs against a fresh Segmenter; laws: exact partition, field identity, bidi parity against reference levels per paragraph, script uniformity and bracket/neutral context, orientation, face through the Fontmap (script hint told first), language/script compatibility.",
